@@ -407,7 +407,9 @@ pub fn eval_c06(sc: &Scenario, h: &History, signed: &Signeds, out: &mut Outcome)
                 format!("op {}: fee {} < minimum {} for the signed transaction of {} bytes ({} vkey + {} bootstrap witnesses)", b.op, fee, need, s.bytes.len(), s.n_vkeys, s.n_bootstrap),
             );
         }
-        let (min, exact) = fee_request_before(sc, h, b.balanced_at.unwrap() + 1);
+        // the request in force when the transaction is built: a validated build honours it or fails, also when the
+        // request came after the fee was fixed (an unvalidated build hands out what the balancing left)
+        let (min, exact) = fee_request_before(sc, h, if b.unsafe_build { b.balanced_at.unwrap() + 1 } else { b.op });
         if let Some(m) = min {
             out.count("c06.fee_min_checked", 1);
             if fee < m {
